@@ -10,26 +10,28 @@ COMMON_ASSUME = [
     'pointers are concrete along a path; relational comparison of pointers into different objects is evaluated on deterministic fake addresses and listed in ub_notes',
 ]
 
-def parse_runs(pid, props, nq, nt, wq, wt, mq, mt, extra=()):
+def parse_runs(pid, props, nq, nt, wq, wt, mq, mt, extra=(), ip6=False):
     P = ['P_' + p for p in props]
     def mk(n, w, m, budget):
         rs = [R('parseA', 'h_parse.c', P + ['NMAX=%d' % n], 'A: all char strings of length 0..%d' % n, ['accepted', 'rejected-incomplete', 'rejected-at-deadpos', 'rejected-inside-ip-literal'], budget)]
         if w is not None: rs.append(R('parseW', 'h_parse.c', P + ['WIDE', 'NMAX=%d' % w], 'W: all wchar_t strings (32-bit values) of length 0..%d' % w, ['accepted'], budget))
         if m is not None: rs.append(R('parseIP', 'h_parse.c', P + ['PREFIX="//["', 'NMAX=%d' % m], 'A: "//[" followed by every char string of length 0..%d' % m, ['host-ip6', 'rejected-inside-ip-literal'] + (['host-ipfuture'] if m >= 5 else []), budget))
+        if ip6:
+            rs.append(R('parseIP6gen', 'h_parse.c', P + ['IP6GEN'] + (['IP6_WIDE_HEX'] if budget > 1000 else []), 'A: "//[" + shape-bounded IPv6 literal + "]": 0..8 one-digit groups before/after an optional "::", one group of 1..5 digits (thorough: hex digits of both cases), optional IPv4 tail of 3..5 octets with one octet of 1..4 digits; valid and invalid layouts', ['host-ip6', 'rejected-inside-ip-literal'], budget * 2))
         return rs
     return {'quick': mk(nq, wq, mq, 400) + list(extra), 'thorough': mk(nt, wt, mt, 2400) + list(extra)}
 
 SPECS = {}
-SPECS['C01'] = {'runs': parse_runs('C01', ['C01'], 6, 7, 4, 5, 6, 7), 'assumptions': COMMON_ASSUME + ['oracle G: minimal DFA generated on every run from doc/rfc3986_grammar_only.txt (ABNF string literals case-insensitive per RFC 5234)'],
+SPECS['C01'] = {'runs': parse_runs('C01', ['C01'], 6, 7, 4, 5, 6, 7, ip6=True), 'assumptions': COMMON_ASSUME + ['oracle G: minimal DFA generated on every run from doc/rfc3986_grammar_only.txt (ABNF string literals case-insensitive per RFC 5234)'],
     'bounds': {'quick': 'N<=6 (char), N<=4 (wchar_t), IP-literal tail M<=6', 'thorough': 'N<=7 (char), N<=5 (wchar_t), M<=7'},
     'outside': 'longer texts; entry points other than uriParseSingleUriExMm are covered by the h_entry run'}
-SPECS['C02'] = {'runs': parse_runs('C02', ['C02'], 6, 7, 4, 5, 6, 7), 'assumptions': COMMON_ASSUME + ['oracle S: RFC 3986 Appendix B splitter + numeric IPv4/IPv6 evaluation (oracle/oracle_split.h)'],
+SPECS['C02'] = {'runs': parse_runs('C02', ['C02'], 6, 7, 4, 5, 6, 7, ip6=True), 'assumptions': COMMON_ASSUME + ['oracle S: RFC 3986 Appendix B splitter + numeric IPv4/IPv6 evaluation (oracle/oracle_split.h)'],
     'bounds': {'quick': 'N<=6 (char), N<=4 (wchar_t), IP-literal tail M<=6', 'thorough': 'N<=7, W N<=5, M<=7'}, 'outside': 'longer texts'}
 SPECS['C03'] = {'runs': parse_runs('C03', ['C03'], 6, 7, 4, 5, 6, 7, extra=[
         R('parseMID', 'h_parse.c', ['P_C03', 'P_C02', 'MID', 'NMAX=5'], 'range of length 0..5 in the middle of a buffer with 2 symbolic characters on each side', ['accepted'], 600),
         R('parseFAIL', 'h_parse.c', ['P_C03', 'FAILING', 'NMAX=5'], 'every subset of failing allocations, texts of length 0..5', ['alloc-failure-injected'], 600)]),
     'assumptions': COMMON_ASSUME, 'bounds': {'quick': 'N<=6 / W N<=4 / M<=6; mid-buffer and failure injection N<=5', 'thorough': 'N<=7 / W 5 / M<=7'}, 'outside': 'longer texts'}
-SPECS['C04'] = {'runs': parse_runs('C04', ['C04'], 5, 6, 3, 4, 5, 6), 'assumptions': COMMON_ASSUME, 'bounds': {'quick': 'N<=5, W N<=3, M<=5', 'thorough': 'N<=6, W 4, M<=6'}, 'outside': 'longer texts'}
+SPECS['C04'] = {'runs': parse_runs('C04', ['C04'], 5, 6, 3, 4, 5, 6, ip6=True), 'assumptions': COMMON_ASSUME, 'bounds': {'quick': 'N<=5, W N<=3, M<=5', 'thorough': 'N<=6, W 4, M<=6'}, 'outside': 'longer texts'}
 SPECS['C05'] = {'runs': parse_runs('C05', ['C05'], 4, 5, 3, 4, 4, 5), 'assumptions': COMMON_ASSUME + ['maxChars: one unconstrained symbolic 32-bit int per URI; charsWritten NULL or not is a symbolic choice'],
     'bounds': {'quick': 'parsed URIs N<=4 (W 3, M<=4) x every int maxChars', 'thorough': 'N<=5 (W 4, M 5)'}, 'outside': 'ranges >= 2^31 characters'}
 
@@ -44,6 +46,7 @@ RESCOV = ['ref-absolute-path', 'ref-merged', 'ref-empty-path']
 def resolve_runs(P, tier):
     P = ['P_' + p for p in P]
     rs = [R('resolve-paths', 'h_resolve.c', P + ['KB=2', 'KR=2', 'SEGL=2'] + RES_PATH, 'base "x:" [//host] + <=2 segments, reference = path of <=2 segments (optional leading /), segments <=2 chars over [a-z.]; strict and compat mode', RESCOV + ['slash-dot-guard-expected'], 400),
+          R('resolve-paths-k3', 'h_resolve.c', P + ['KB=1', 'KR=3', 'SEGL=1'] + RES_PATH, 'base <=1 segment, reference of <=3 one-character segments (reaches /.//x and x/..//y)', RESCOV + ['slash-dot-guard-expected'], 300),
           R('resolve-base-authority', 'h_resolve.c', P + RES_CB, 'base with every authority shape (user info none/empty/1 char, host reg-name/IPv4/IPv6/IPvFuture, port none/empty/1 digit), reference [scheme] path<=1 seg [?query]', RESCOV + ['ref-has-scheme'], 400),
           R('resolve-mixed', 'h_resolve.c', P + RES_CM, 'base scheme [//host] path<=1 [?q]; reference [scheme] [//host] path<=1 [?q] [#f]; 1-char segments', RESCOV + ['ref-has-scheme', 'ref-has-authority'], 600),
           R('resolve-relative-base', 'h_resolve.c', P + RES_REL, 'base with or without scheme (error code for relative base)', ['relative-base'], 300)]
@@ -148,9 +151,11 @@ SPECS['C13'] = {'runs': {
 FAILCOV = ['alloc-failure-injected']
 SPECS['C14'] = {'runs': {
     'quick': [R('parse', 'h_parse.c', ['FAILING', 'NMAX=5'], 'every subset of failing allocations during parse, texts 0..5', FAILCOV, 600),
-              R('resolve', 'h_resolve.c', ['FAILING', 'KB=2', 'KR=2', 'SEGL=1', 'BFLAGS=(G_SCHEME_REQ|G_AUTH|G_HOSTKINDS)', 'RFLAGS=(G_AUTH|G_HOSTKINDS)'], 'every subset of failing allocations during resolve; all host kinds, <=2 segments each', FAILCOV, 600),
+              R('resolve', 'h_resolve.c', ['FAILING', 'KB=2', 'KR=2', 'SEGL=2'] + RES_PATH, 'every subset of failing allocations during resolve; <=2 x <=2 segments of <=2 chars over [a-z.]', FAILCOV, 600),
+              R('resolve-hosts', 'h_resolve.c', ['FAILING', 'KB=1', 'KR=1', 'SEGL=1', 'BFLAGS=(G_SCHEME_REQ|G_AUTH|G_HOSTKINDS)', 'RFLAGS=(G_AUTH|G_HOSTKINDS)'], 'every subset of failing allocations during resolve; all host kinds on both sides, <=1 segment', FAILCOV, 600),
               R('shorten', 'h_shorten.c', ['FAILING', 'KS=2', 'KB=2', 'SEGL=1', 'SFLAGS=(G_SCHEME_REQ|G_AUTH|G_HOSTKINDS)', 'BFLAGS=(G_SCHEME_REQ|G_AUTH)'], 'every subset of failing allocations during reference creation', FAILCOV, 600),
               R('normalize', 'h_norm.c', ['FAILING', 'KN=2', 'SEGL=1', 'NFLAGS=(G_SCHEME_OPT|G_AUTH|G_QUERY|G_PCT)', 'MASKS=8,63'], 'every subset of failing allocations during normalisation (PATH and all), borrowed and owned', FAILCOV + ['alloc-failure-borrowed'], 900),
+              R('normalize-dots', 'h_norm.c', ['FAILING', 'KN=3', 'SEGL=2', 'NFLAGS=(G_SCHEME_OPT|G_AUTH)', 'MASKS=8'], 'every subset of failing allocations during PATH normalisation of <=3 segments of <=2 chars over [a-z.]', FAILCOV + ['alloc-failure-borrowed'], 900),
               R('make-owner', 'h_owner.c', ['FAILING', 'KO=1', 'OFLAGS=(G_SCHEME_OPT|G_AUTH|G_HOSTKINDS|G_QUERY)'], 'every subset of failing allocations during make-owner', FAILCOV, 600),
               R('dissect', 'h_query.c', ['MODE_DISSECT', 'FAILING', 'NMAX=4'], 'every subset of failing allocations during query dissection, texts 0..4', FAILCOV, 600)],
     'thorough': [R('parse', 'h_parse.c', ['FAILING', 'NMAX=6'], 'texts 0..6', FAILCOV, 2400),
@@ -176,9 +181,10 @@ SPECS['C15'] = {'runs': {
 SPECS['C16'] = {'runs': {
     'quick': [R('escape', 'h_escape.c', ['MODE_ESC', 'NMAX=3'], 'all char strings over 1..255 of length 0..3; both flags; explicit range and NUL-terminated; round trip through uriUnescapeInPlaceEx', ['normalize-breaks', 'space-to-plus', 'nul-terminated', 'explicit-range'], 600),
               R('unescape', 'h_escape.c', ['NMAX=4'], 'all NUL-terminated char strings of length 0..4 (incl. truncated/malformed %); plus-to-space; all four break modes', ['decoded-something', 'nothing-decoded'], 600),
+              R('unescape-tokens', 'h_escape.c', ['TOKENS', 'NMAX=3'], 'sequences of 0..3 tokens, each a symbolic character or a %XY triplet with symbolic hex digits (up to 9 characters)', ['decoded-something'], 600),
               R('unescapeW', 'h_escape.c', ['WIDE', 'NMAX=3'], 'all wchar_t strings (32-bit values) of length 0..3', ['decoded-something'], 600)],
     'thorough': [R('escape', 'h_escape.c', ['MODE_ESC', 'NMAX=4'], 'length 0..4', ['normalize-breaks'], 2400), R('escapeW', 'h_escape.c', ['MODE_ESC', 'WIDE', 'NMAX=3'], 'wide, length 0..3', ['normalize-breaks'], 2400),
-              R('unescape', 'h_escape.c', ['NMAX=6'], 'length 0..6', ['decoded-something'], 2400), R('unescapeW', 'h_escape.c', ['WIDE', 'NMAX=4'], 'wide, length 0..4', ['decoded-something'], 2400)]},
+              R('unescape', 'h_escape.c', ['NMAX=6'], 'length 0..6', ['decoded-something'], 2400), R('unescape-tokens', 'h_escape.c', ['TOKENS', 'NMAX=4'], 'sequences of 0..4 tokens', ['decoded-something'], 2400), R('unescapeW', 'h_escape.c', ['WIDE', 'NMAX=4'], 'wide, length 0..4', ['decoded-something'], 2400)]},
     'assumptions': COMMON_ASSUME + ['oracle E: reference escaper/decoder (oracle/oracle_escape.h); output buffers are exact-size objects of 3n+1 / 6n+1 characters, the in-place buffer has exactly n+1'],
     'bounds': {'quick': 'N<=3 escape, N<=4 unescape', 'thorough': 'N<=4 / N<=6'}, 'outside': 'longer strings'}
 SPECS['C17'] = {'runs': {
